@@ -20,7 +20,8 @@ EXPLANATION = (
     '.get) in runner.py / __main__.py is written by a run-summary literal (a misspelt key in .get(..., 0) would silently always exit 0). '
     'R4 SIGN: in __main__.main every return reachable after the run is 0 when n_failed is 0 and non-zero when it is positive, and the module '
     'passes main()\'s result to sys.exit. R5 FINITE-EVAL of the gathering loop: an example is gathered iff (all|dump or named) and not (all|dump and disabled); '
-    'all|dump is true exactly for those two commands. The text printed by `list` is not decided.')
+    'all|dump is true exactly for those two commands. The text printed by `list` is not decided.'
+    ' R5 the gathering decision is evaluated over the 12 rows command x named x disabled for a loop, comprehension, mode split, selection flag or helper form, and a doctest is named by membership in valid_testnames. R6 also: one prompt per marker pattern (no fused literals). R8 `list` names every collected example at the default log level.')
 DECIDES = ['FINITE-EVAL summary flags', 'GUARD-DOM failed list + PATH-COUNT run/append', 'TABLE-AGREE writer/reader keys', 'SIGN exit status', 'FINITE-EVAL gathering']
 NOT_DECIDED = ['text of the `list` command', 'zero-argument fallback gathering', 'output formatting of the summary']
 
